@@ -203,3 +203,47 @@ def same_tangent(p_img, v_img, p, v, tol=1e-7):
         return False
     sg = 1.0 if float(np.dot(p_img, p)) > 0 else -1.0
     return parallel_pos(sg * np.asarray(v_img, float), v, tol)
+
+
+# ---------------------------------------------------------------- integer packagings of object data
+DATA_PACKS = ["float64", "int64", "int32", "list", "float32"]
+
+
+def pack_data(a, kind):
+    """integral-valued coordinate data in a given packaging (nested lists of Python ints, integer arrays, ...)"""
+    a = np.array(a)
+    if kind == "int64":
+        return np.rint(a).astype(np.int64)
+    if kind == "int32":
+        return np.rint(a).astype(np.int32)
+    if kind == "list":
+        return np.rint(a).astype(int).tolist()
+    if kind == "float32":
+        return a.astype(np.float32)
+    return a.astype(np.float64)
+
+
+def int_timelike(rng, dim):
+    while True:
+        v = [rng.randint(2, 6)] + [rng.randint(-3, 3) for _ in range(dim)]
+        if -v[0] ** 2 + sum(x * x for x in v[1:]) < 0:
+            return v
+
+
+def int_spacelike(rng, dim):
+    while True:
+        v = [rng.randint(-2, 2)] + [rng.randint(-3, 3) for _ in range(dim)]
+        if -v[0] ** 2 + sum(x * x for x in v[1:]) > 0:
+            return v
+
+
+PYTH = [(1, 1, 0), (1, 0, 1), (1, -1, 0), (1, 0, -1), (5, 3, 4), (5, 4, 3), (5, -3, 4), (5, 4, -3), (5, -4, -3), (13, 5, 12), (13, -12, 5), (17, 8, 15), (17, -15, -8)]
+
+
+def int_lightlike(rng, dim):
+    t, a, b = rng.choice(PYTH)
+    v = [t, a, b] + [0] * (dim - 2)
+    if dim > 2 and rng.random() < 0.5:
+        i, j = rng.sample(range(1, dim + 1), 2)
+        v[i], v[j] = v[j], v[i]
+    return v
